@@ -112,7 +112,8 @@ let () =
            | "check_size" -> 1 | "try_to_axis_shape" -> 2 | "ctor" -> 3 | "reshape" -> 4 | "mapfam" -> 5
            | "multiply" | "mul_like" -> 6 | "from_wrapping" -> 7 | "index_from_flattened" -> 8 | "index_to_flattened" -> 9 | "autotraits" -> 10 | "scalar_forms" -> 11 | "scalar_neg" -> 12 | "multiply_mixed" -> 13
            | _ -> 0 in
-         let ob = kcase (cfg64 (dbg = "1")) (z_of_int code) (List.map z_of_string rest) in
+         let ob = if name = "itermut_zst" then kcase_itermut_zst (cfg64 (dbg = "1")) (List.map z_of_string rest)
+                  else kcase (cfg64 (dbg = "1")) (z_of_int code) (List.map z_of_string rest) in
          Buffer.add_string out ("K " ^ id ^ " " ^ string_of_obs ob ^ "\n")
        | [] -> ()
        | "X" :: _ -> ()    (* fault injection directive: the functional model runs the un-faulted history *)
